@@ -79,12 +79,17 @@ Proof.
   rewrite orb_true_iff, IH, N.eqb_eq. split; intros [H|H]; auto.
 Qed.
 
+(* the schema keeps names, order, kinds and defaults; it has no notion of positional-only, so the
+   generated __init__ takes those parameters as ordinary positional ones *)
+Definition drop_posonly (s : sig) : sig :=
+  {| pos := pos s; posonly := 0; varargs := varargs s; kwonly := kwonly s; varkw := varkw s |}.
+
 Theorem generated_init_signature_is_original : forall s,
-  wf_sig s -> no_gap (pos s) false = true -> generated_init_sig s = s.
+  wf_sig s -> no_gap (pos s) false = true -> generated_init_sig s = drop_posonly s.
 Proof.
   intros s W G. unfold generated_init_sig.
-  assert (from_schema (to_schema s) = s) as E.
-  { destruct s as [ps va ks vk]. unfold from_schema, to_schema; simpl.
+  assert (from_schema (to_schema s) = drop_posonly s) as E.
+  { destruct s as [ps po va ks vk]. unfold from_schema, to_schema, drop_posonly; simpl.
     pose proof (wf_nodup _ W) as ND. rewrite names_params in ND. simpl in ND.
     assert (forall a, va = Some a -> ~ In a (names ps ++ names ks)) as NV.
     { intros a Ha. pose proof (wf_va _ W a Ha) as Q. rewrite names_params in Q. exact Q. }
@@ -116,7 +121,7 @@ Proof.
       assert (forall (l : list (name * option val)), existsb (fun f : fkey * option val => match fst f with KStr => true | KConst _ => false end) (map cfield l) = false) as NK.
       { induction l as [|[n d] r IH]; simpl; [reflexivity|exact IH]. }
       rewrite !NK. destruct va, vk; reflexivity. }
-  rewrite E. destruct s as [ps va ks vk]; simpl in *. rewrite force_defaults_id by assumption. reflexivity.
+  rewrite E. destruct s as [ps po va ks vk]; unfold drop_posonly; simpl in *. rewrite force_defaults_id by assumption. reflexivity.
 Qed.
 
 Example example_sig_no_gap : no_gap (pos example_sig) false = true.
